@@ -30,7 +30,7 @@ FILES = {
     'sfc_models/equation_solver.py': ['C10', 'C11', 'C03', 'C02', 'C15', 'C16', 'C17', 'C19'],
     'sfc_models/models.py': ['C16', 'C10', 'C07', 'C05', 'C01', 'C18', 'C08', 'C11'],
     'sfc_models/sector.py': ['C06', 'C07', 'C04', 'C01', 'C05', 'C08', 'C11'],
-    'sfc_models/sector_definitions.py': ['C07', 'C04', 'C01', 'C09', 'C08', 'C18'],
+    'sfc_models/sector_definitions.py': ['C07', 'C04', 'C01', 'C09', 'C05', 'C08', 'C18'],
     'sfc_models/external.py': ['C07', 'C01', 'C18'],
     'sfc_models/base_solver.py': ['C16', 'C20'],
     'sfc_models/gl_book/chapter3.py': ['C09', 'C18'],
@@ -262,14 +262,17 @@ def suite(nproc):
     print(c)
 
 
-def checks(first, count):
+def checks(first, count, only_ids=None):
     muts = dict((m['id'], m) for m in load())
     res = load_results()
     surv = sorted(int(k) for k, v in res.items() if v['suite'] == 'survives-suite')
     done = 0
-    for mid in surv[first:first + count]:
-        if 'checks' in res[str(mid)]:
+    todo = surv[first:first + count] if only_ids is None else only_ids
+    for mid in todo:
+        if only_ids is None and 'checks' in res[str(mid)]:
             continue
+        if only_ids is not None:
+            res[str(mid)]['first_round'] = {'checks': res[str(mid)].get('checks'), 'detected_by': res[str(mid)].get('detected_by')}
         m = muts[mid]
         d = make_copy(m)
         verdicts = {}
@@ -338,5 +341,7 @@ if __name__ == '__main__':
         suite(int(sys.argv[2]) if len(sys.argv) > 2 else 16)
     elif cmd == 'checks':
         checks(int(sys.argv[2]) if len(sys.argv) > 2 else 0, int(sys.argv[3]) if len(sys.argv) > 3 else 10 ** 9)
+    elif cmd == 'recheck':
+        checks(0, 0, [int(x) for x in sys.argv[2].split(',')])
     elif cmd == 'report':
         report()
